@@ -2,6 +2,7 @@ package core
 
 import (
 	"fmt"
+	"sort"
 	"go/constant"
 	"go/token"
 	"go/types"
@@ -27,11 +28,15 @@ const (
 	BMix
 )
 
+// Bit of kind BSrc is a GF(2)-linear combination: the XOR of one or more source
+// bits (Src/Idx is the first term, More holds the others, sorted), complemented
+// when Neg. A single term is a plain copy of a source bit.
 type Bit struct {
 	Kind BitKind
-	Src  string // canonical path of the source value
+	Src  string // canonical path of the (first) source value
 	Idx  int    // bit index inside the source
 	Neg  bool
+	More string // further XOR terms "src.idx^src.idx", sorted; "" for a plain copy
 }
 
 func (b Bit) String() string {
@@ -45,9 +50,35 @@ func (b Bit) String() string {
 		if b.Neg {
 			n = "~"
 		}
+		if b.More != "" {
+			return fmt.Sprintf("%s(%s.%d^%s)", n, b.Src, b.Idx, b.More)
+		}
 		return fmt.Sprintf("%s%s.%d", n, b.Src, b.Idx)
 	}
 	return "?"
+}
+
+func (b Bit) terms() []string {
+	t := []string{fmt.Sprintf("%s.%d", b.Src, b.Idx)}
+	if b.More != "" {
+		t = append(t, strings.Split(b.More, "^")...)
+	}
+	return t
+}
+
+func fromTerms(ts []string, neg bool) Bit {
+	if len(ts) == 0 {
+		if neg {
+			return Bit{Kind: BOne}
+		}
+		return Bit{Kind: BZero}
+	}
+	sort.Strings(ts)
+	first := ts[0]
+	i := strings.LastIndexByte(first, '.')
+	idx := 0
+	fmt.Sscanf(first[i+1:], "%d", &idx)
+	return Bit{Kind: BSrc, Src: first[:i], Idx: idx, Neg: neg, More: strings.Join(ts[1:], "^")}
 }
 
 type BitVec []Bit // index 0 = least significant bit
@@ -56,6 +87,9 @@ type BitAnalyzer struct {
 	P    *Pather
 	memo map[ssa.Value]BitVec
 	depth int
+	// Assume gives, for a source path, the number of low bits that may be non-zero
+	// (a fact the rule has established elsewhere, e.g. from a dominating guard).
+	Assume map[string]int
 	// Opaque lets a rule name calls that should be treated as sources of their
 	// own (default: every call is an opaque source named by its path).
 }
@@ -96,8 +130,14 @@ func (a *BitAnalyzer) opaque(v ssa.Value) BitVec {
 	}
 	src := a.P.Path(v)
 	out := make(BitVec, w)
+	lim := w
+	if n, ok := a.Assume[src]; ok && n < w {
+		lim = n
+	}
 	for i := range out {
-		out[i] = Bit{Kind: BSrc, Src: src, Idx: i}
+		if i < lim {
+			out[i] = Bit{Kind: BSrc, Src: src, Idx: i}
+		}
 	}
 	return out
 }
@@ -424,11 +464,25 @@ func xorBit(a, b Bit) Bit {
 	if b.Kind == BOne {
 		return notBit(a)
 	}
-	if a.Kind == BSrc && b.Kind == BSrc && a.Src == b.Src && a.Idx == b.Idx {
-		if a.Neg == b.Neg {
-			return Bit{Kind: BZero}
+	if a.Kind == BSrc && b.Kind == BSrc {
+		// symmetric difference of the term sets
+		cnt := map[string]int{}
+		for _, t := range a.terms() {
+			cnt[t]++
 		}
-		return Bit{Kind: BOne}
+		for _, t := range b.terms() {
+			cnt[t]++
+		}
+		var ts []string
+		for t, n := range cnt {
+			if n%2 == 1 {
+				ts = append(ts, t)
+			}
+		}
+		if len(ts) > 24 {
+			return Bit{Kind: BMix}
+		}
+		return fromTerms(ts, a.Neg != b.Neg)
 	}
 	return Bit{Kind: BMix}
 }
@@ -459,7 +513,9 @@ func (v BitVec) Describe() string {
 			if b.Neg {
 				n = "~"
 			}
-			if i == j {
+			if b.More != "" {
+				rhs = b.String()
+			} else if i == j {
 				rhs = fmt.Sprintf("%s%s[%d]", n, b.Src, b.Idx)
 			} else {
 				rhs = fmt.Sprintf("%s%s[%d:%d]", n, b.Src, b.Idx, v[j].Idx)
@@ -472,7 +528,11 @@ func (v BitVec) Describe() string {
 		}
 		i = j - 1
 	}
-	return strings.Join(parts, " ")
+	out := strings.Join(parts, " ")
+	if len(out) > 420 {
+		out = out[:400] + " …"
+	}
+	return out
 }
 
 func sameRun(hi, lo Bit) bool {
@@ -480,6 +540,9 @@ func sameRun(hi, lo Bit) bool {
 		return false
 	}
 	if hi.Kind == BSrc {
+		if hi.More != "" || lo.More != "" {
+			return false
+		}
 		return hi.Src == lo.Src && hi.Neg == lo.Neg && hi.Idx == lo.Idx+1
 	}
 	return true
@@ -501,7 +564,7 @@ func (v BitVec) IsCopy(hi, lo int, src string, slo int) bool {
 	}
 	for i := lo; i <= hi; i++ {
 		b := v[i]
-		if b.Kind != BSrc || b.Src != src || b.Idx != slo+(i-lo) || b.Neg {
+		if b.Kind != BSrc || b.Src != src || b.Idx != slo+(i-lo) || b.Neg || b.More != "" {
 			return false
 		}
 	}
@@ -523,4 +586,29 @@ func (v BitVec) IsConst(hi, lo int, val uint64) bool {
 		}
 	}
 	return true
+}
+
+// IsXorOf reports whether bits hi..lo are, bit by bit, the XOR of the given
+// sources (each "path" contributing its bit slo_k+(i-lo)), complemented iff neg.
+func (v BitVec) IsXorOf(hi, lo int, neg bool, srcs ...SrcRef) bool {
+	if v == nil || hi >= len(v) {
+		return false
+	}
+	for i := lo; i <= hi; i++ {
+		var ts []string
+		for _, s := range srcs {
+			ts = append(ts, fmt.Sprintf("%s.%d", s.Path, s.Lo+(i-lo)))
+		}
+		want := fromTerms(ts, neg)
+		if v[i] != want {
+			return false
+		}
+	}
+	return true
+}
+
+// SrcRef names bits Lo.. of a source path.
+type SrcRef struct {
+	Path string
+	Lo   int
 }
